@@ -31,7 +31,7 @@ ASSUMPTIONS = ['MI/entropy identities compared at 1e-12 absolute (natural log)',
                'intra-chunk preemption covered by the write-set argument (per-thread partial count tables have disjoint support '
                'and sum to the total), not by enumeration',
                'NEP-49 poison allocator fills fresh numpy buffers with NaN during the run']
-GUARDS = {'wide_ids': 50, 'unequal_sides': 500, 'mixed_dtype': 100, 'strided': 100, 'rejected_bad_ids': 50, 'multi_enabled': 50,
+GUARDS = {'kl_tiny': 20, 'wide_ids': 50, 'unequal_sides': 500, 'mixed_dtype': 100, 'strided': 100, 'rejected_bad_ids': 50, 'multi_enabled': 50,
           'tables_with_zero_cell': 500, 'rectangular_norm': 50, 'pooled': 100, 'weighted': 100, 'kl_pairs': 200}
 EXT = 'enspara.info_theory.libinfo'
 DTYPES = ('int8', 'int16', 'int32', 'int64', 'uint8', 'uint16', 'uint32', 'uint64')
@@ -297,6 +297,24 @@ def check_kl(ctx):
                     ctx.violation('kl:sign_law', case, 'KL(%r||%r)=%r' % (P.tolist(), Q.tolist(), d))
                 elif (math.isinf(want) != math.isinf(d)) or (not math.isinf(want) and abs(d - want) > 1e-12):
                     ctx.violation('kl:value', case, 'KL=%r want %r' % (d, want))
+        # probabilities that are tiny but not zero (1e-9, 1e-12, 1e-300) are still probabilities
+        for eps in (1e-9, 1e-12, 1e-300):
+            for Pv, Qv in (([1 - eps, eps] + [0] * (n - 2), [1.0, 0.0] + [0] * (n - 2)),
+                           ([eps, 1 - eps] + [0] * (n - 2), [0.5, 0.5] + [0] * (n - 2)),
+                           ([0.5, 0.5] + [0] * (n - 2), [1 - eps, eps] + [0] * (n - 2))):
+                P, Q = np.array(Pv, float), np.array(Qv, float)
+                ctx.ev()
+                ctx.guard('kl_tiny')
+                case = {'kind': 'kl', 'P': P.tolist(), 'Q': Q.tolist()}
+                ctx.state(('kl', tuple(P), tuple(Q)), nontrivial=True)
+                try:
+                    d = float(ent.kl_divergence(P.copy(), Q.copy(), base=math.e))
+                except Exception as e:
+                    ctx.violation('kl:raises:%s' % type(e).__name__, case, repr(e))
+                    continue
+                want = sum((p * math.log(p / q) if q > 0 else math.inf) for p, q in zip(P, Q) if p > 0)
+                if not (d >= -1e-15) or (math.isinf(want) != math.isinf(d)) or (not math.isinf(want) and abs(d - want) > 1e-12 * max(1.0, abs(want))):
+                    ctx.violation('kl:tiny_probabilities', case, 'KL(%r||%r) = %r, definition gives %r' % (P.tolist(), Q.tolist(), d, want))
         # batched rows
         P2 = np.array(dists[:4])
         Q2 = np.array(dists[1:5])
